@@ -16,6 +16,7 @@ func interleaveTenants(c *core.Ctx, runs []*tenantRun) string {
 	}
 	den := uint64([]int{4, 2, 8, 16, 64, 3}[c.T.Intn(6)])
 	sim := newSchedSim(c, den)
+	sim.noAccessTracking = true
 	for _, r := range runs {
 		r := r
 		sim.spawn(func(th *simThread) {
